@@ -52,7 +52,7 @@ type Workload struct {
 	EarlyStop   bool `json:"early_stop"` // Destroy() is issued while run-time changes are still being applied (shutdown during an update)
 }
 
-const watchdog = 15 * time.Second
+const watchdog = 30 * time.Second
 
 // parked reports whether the goroutine dump shows a reservoir frame waiting on a lock or channel.
 func parked(dump string) (bool, string) {
@@ -83,8 +83,19 @@ func allStacks() string {
 	}
 }
 
+// janitors returns the stacks of the goroutines running a cache janitor's loop ("" if none).
+func janitors(dump string) string {
+	var out []string
+	for _, g := range strings.Split(dump, "\n\n") {
+		if strings.Contains(g, "reservoir/cache.(*cacheJanitor[") && strings.Contains(g, ".start.func1") {
+			out = append(out, g)
+		}
+	}
+	return strings.Join(out, "\n\n")
+}
+
 var subWL = ev.Register("cache-workloads",
-	"4-32 goroutines run pre-drawn plans of store/get/delete/update-metadata/get-metadata on colliding and distinct keys against one cache (memory/file, shards 1/2/3/64, a limit of 2-3 bodies so stores evict from inside Cache(), janitor at 1 ms) while another goroutine applies run-time max_cache_size / cleanup_interval / memory_budget_percent changes; hook points are used as yield/perturbation points; then Destroy() and a second Destroy(); oracle: everything returns within a 15 s watchdog; on expiry the goroutine dump must show a reservoir/cache frame parked on a lock or channel (violation, the dump is the replay artefact), otherwise the run is inconclusive; non-trivial = at least one store-triggered eviction and one janitor cycle overlapped the workload; distinct by (backend, shards, plan hash)",
+	"4-32 goroutines run pre-drawn plans of store/get/delete/update-metadata/get-metadata on colliding and distinct keys against one cache (memory/file, shards 1/2/3/64, a limit of 2-3 bodies so stores evict from inside Cache(), janitor at 1 ms) while another goroutine applies run-time max_cache_size / cleanup_interval / memory_budget_percent changes; hook points are used as yield/perturbation points; then Destroy() and a second Destroy(); oracle: after the changes periodic cleanup cycles keep completing (two more within 12 s; every interval set is <= 10 ms), after Destroy the janitor goroutine is gone within 5 s, and everything returns within a 30 s watchdog; on expiry the goroutine dump must show a reservoir/cache frame parked on a lock or channel (violation, the dump is the replay artefact), otherwise the run is inconclusive; non-trivial = at least one store-triggered eviction and one janitor cycle overlapped the workload; distinct by (backend, shards, plan hash)",
 	func(w Workload, o *ev.Obs) *ev.Failure {
 		if w.Procs > 0 {
 			defer runtime.GOMAXPROCS(runtime.GOMAXPROCS(w.Procs))
@@ -104,6 +115,7 @@ var subWL = ev.Register("cache-workloads",
 			return time.Now().Add(time.Duration(ms) * time.Millisecond)
 		}
 		var phase atomic.Value
+		var noCycles atomic.Bool
 		phase.Store("operations")
 		done := make(chan struct{})
 		go func() {
@@ -157,6 +169,17 @@ var subWL = ev.Register("cache-workloads",
 				}
 			}()
 			wg.Wait()
+			if !w.EarlyStop {
+				// every interval that was ever set is at most 10 ms: periodic cycles keep completing after the changes
+				phase.Store("waiting for two more periodic cleanup cycles")
+				from := metrics.Global.Cache.CleanupRuns.Get()
+				for t0 := time.Now(); metrics.Global.Cache.CleanupRuns.Get() < from+2; time.Sleep(2 * time.Millisecond) {
+					if time.Since(t0) > 12*time.Second {
+						noCycles.Store(true)
+						break
+					}
+				}
+			}
 			stallRelease := make(chan struct{})
 			stallDone := make(chan struct{})
 			if w.StallAtStop {
@@ -194,6 +217,19 @@ var subWL = ev.Register("cache-workloads",
 			ev.Incomplete("watchdog expired without a parked reservoir frame (inconclusive): %s/%d shards", w.Backend, w.Shards)
 			o.Skip = true
 			return nil
+		}
+		if noCycles.Load() {
+			return ev.Failf("stall:no-cleanup-cycle", "%s backend, %d shards: after the run-time changes %v (every interval <= 10 ms) no periodic cleanup cycle completed for 12 s; janitor goroutine:\n%s", w.Backend, w.Shards, w.Changes, clip(janitors(allStacks()), 1500))
+		}
+		// the janitor belongs to the cache: some time after Destroy it is gone
+		left := ""
+		for t0 := time.Now(); time.Since(t0) < 5*time.Second; time.Sleep(20 * time.Millisecond) {
+			if left = janitors(allStacks()); left == "" {
+				break
+			}
+		}
+		if left != "" {
+			return ev.Failf("stop:janitor-survives", "%s backend, %d shards, changes %v: 5 s after Destroy() returned the cache's janitor goroutine is still there:\n%s", w.Backend, w.Shards, w.Changes, clip(left, 1500))
 		}
 		ev := metrics.Global.Cache.CacheEvictions.Get()
 		runs := metrics.Global.Cache.CleanupRuns.Get()
